@@ -779,6 +779,21 @@ func (vc *VC) execLoop(fr *frame, st *State, ld *loopDesc) *State {
 	loopPos := ld.body.Lbrace + 1
 	fr.specPos = loopPos
 	defer func() { fr.curLoop = fr.curLoop[:len(fr.curLoop)-1]; fr.specPos = savedPos }()
+	if fr.ghosts == nil {
+		fr.ghosts = map[string]binding{}
+	}
+	if spec != nil {
+		for _, gv := range spec.Ghosts {
+			env := vc.envFor(fr, st, nil, nil)
+			t := env.resolveType(gv.Type)
+			if t == nil {
+				vc.errorf(ld.pos, "loop ghost %s: unknown type %s", gv.Name, gv.Type)
+				t = tInt
+			}
+			v, _ := env.evalTerm(gv.Init.Expr)
+			fr.ghosts[gv.Name] = binding{v, t}
+		}
+	}
 	vc.applyHints(fr, st, fmt.Sprintf("loop%d.before", ld.ord))
 	checkInv(st, "inv-init")
 	// 2. havoc
@@ -800,6 +815,16 @@ func (vc *VC) execLoop(fr *frame, st *State, ld *loopDesc) *State {
 			_ = old
 			head.vars[o] = nv
 		}
+	}
+	if spec != nil {
+		for _, gv := range spec.Ghosts {
+			b := fr.ghosts[gv.Name]
+			fr.ghosts[gv.Name] = binding{vc.fresh("ghost!"+gv.Name, vc.sortOf(b.T)), b.T}
+		}
+	}
+	headGhosts := map[string]binding{}
+	for k, v := range fr.ghosts {
+		headGhosts[k] = v
 	}
 	if ld.idx != nil {
 		nv := vc.fresh("idx", SInt)
@@ -877,6 +902,14 @@ func (vc *VC) execLoop(fr *frame, st *State, ld *loopDesc) *State {
 	if end != nil && ld.post != nil {
 		end = ld.post(end)
 	}
+	if end != nil && spec != nil {
+		for _, gv := range spec.Ghosts {
+			env := vc.envFor(fr, end, nil, nil)
+			v, _ := env.evalTerm(gv.Step.Expr)
+			b := fr.ghosts[gv.Name]
+			fr.ghosts[gv.Name] = binding{vc.define("ghost!"+gv.Name, v), b.T}
+		}
+	}
 	if end != nil {
 		vc.applyHints(fr, end, fmt.Sprintf("loop%d.end", ld.ord))
 		checkInv(end, "inv-keep")
@@ -884,6 +917,10 @@ func (vc *VC) execLoop(fr *frame, st *State, ld *loopDesc) *State {
 			d1 := vc.term(vc.evalSpec(fr, end, nil, spec.Decreases.Expr, nil))
 			vc.oblige(end, "decreases", tag, ld.pos, And(Le(vc.zeroOfSort(dec0.Sort), dec0), Lt(d1, dec0)), spec.Decreases.Text)
 		}
+	}
+	// on exit the ghost variables have their loop-head values
+	for k, v := range headGhosts {
+		fr.ghosts[k] = v
 	}
 	return vc.merge(append([]*State{exit}, bc.states...)...)
 }
